@@ -251,6 +251,7 @@ impl World {
         match a.to_string().as_str() {
             "77.7.7.7:7000" => return "X4".into(),
             "88.8.8.8:8000" => return "Y4".into(),
+            "99.9.9.9:9900" => return "Z4".into(),
             "[2001:db8:77::7]:7006" => return "X6".into(),
             "[2001:db8:88::8]:8006" => return "Y6".into(),
             "10.0.0.100:9000" => return "L4".into(),
@@ -467,6 +468,7 @@ impl World {
                             "L4" => SocketAddr::new(IpAddr::V4(Ipv4Addr::new(10, 0, 0, 100)), 9000),
                             "X4" => SocketAddr::new(IpAddr::V4(Ipv4Addr::new(77, 7, 7, 7)), 7000),
                             "Y4" => SocketAddr::new(IpAddr::V4(Ipv4Addr::new(88, 8, 8, 8)), 8000),
+                            "Z4" => SocketAddr::new(IpAddr::V4(Ipv4Addr::new(99, 9, 9, 9)), 9900),
                             "X6" => SocketAddr::V6(SocketAddrV6::new(Ipv6Addr::new(0x2001, 0xdb8, 0x77, 0, 0, 0, 0, 7), 7006, 0, 0)),
                             "Y6" => SocketAddr::V6(SocketAddrV6::new(Ipv6Addr::new(0x2001, 0xdb8, 0x88, 0, 0, 0, 0, 8), 8006, 0, 0)),
                             other => self.sock(other, pi),
